@@ -14,7 +14,6 @@ import (
 	"github.com/glowlabs-org/gca-backend/glow"
 	"github.com/glowlabs-org/gca-backend/server"
 
-	"verifh/ev"
 	"verifh/pool"
 )
 
@@ -316,7 +315,7 @@ func init() {
 		return c10Run(j), nil
 	})
 	checks["C10"] = func(tier string) int {
-		run := ev.NewRun("C10", tier, "exploration")
+		run := newRun("C10", tier, "exploration")
 		var jobs []interface{}
 		for _, s := range c10States() {
 			s.Full = tier == "thorough" || !(strings.Contains(s.Name, "255") || s.Name == "no reports")
